@@ -321,10 +321,20 @@ func (c *cors) headerIsAllowed(r *http.Request) bool {
 	}
 
 	for _, v := range strings.Split(h, ",") {
-		if slices.Index(c.AllowHeaders, strings.TrimSpace(v)) < 0 {
+		if !containsFold(c.AllowHeaders, strings.TrimSpace(v)) {
 			return false
 		}
 	}
 
 	return true
+}
+
+// containsFold 判断 list 中是否存在不区分大小写的 v，报头名称是不区分大小写的。
+func containsFold(list []string, v string) bool {
+	for _, item := range list {
+		if strings.EqualFold(item, v) {
+			return true
+		}
+	}
+	return false
 }
